@@ -59,7 +59,14 @@ func c19program(rng *rand.Rand, names []string) string {
 	n := func() string { return names[rng.Intn(len(names))] }
 	k := c19errKinds[rng.Intn(len(c19errKinds))]
 	protos := []string{"Int", "Str", "Arr", "Obj", "Kernel", "JSON", "Map", "Either", "Iterable", "Nil", "Err"}
-	switch rng.Intn(30) {
+	switch rng.Intn(32) {
+	case 30:
+		// modules: names brought in by invite!/import belong to the scope that asked for them
+		return []string{"setup := {|| invite!(\"dummy\")}\nsetup()\n1.p", "invite!(\"dummy\")\nmessage.p", "m := import(\"dummy\")\nm.message.p",
+			"{|| m := import(\"dummy\"); m.keys}()", "[1]@{|x| invite!(\"dummy\"); message}", "o := {f: m{invite!(\"dummy\")}}\no.f\n'done.p",
+			"1.try.fmap {|x| invite!(\"dummy\")}.err.p", "f := {|| g := {|| invite!(\"dummy\")}; g(); message}\nf().p"}[rng.Intn(8)]
+	case 31:
+		return []string{"message.p", "[message]", "message", "'message.evalEnv"}[rng.Intn(4)]
 	case 29:
 		// the shared `_` object taken out of a prototype as a plain value (no property call, no indexing of
 		// the prototype itself) and raised afterwards
